@@ -232,6 +232,8 @@ struct mon {
 	/* C07 */
 	bool synced_once;
 	time_t t_success;
+	bool nodata_pending; /* the last answer was a No-Data error report ... */
+	time_t t_nodata;     /* ... delivered at this time */
 	time_t t_last_choice; /* clock at the last choice point (open / query / wait in ESTABLISHED) */
 	bool open_just_failed; /* the previous open() failed and the client has not slept since */
 	bool send_just_failed; /* the previous query could not be sent and the client has not slept since */
@@ -275,10 +277,12 @@ static void mon_key(struct vbuf *b)
 {
 	long cap = (long)(SOCK->expire_interval > SOCK->refresh_interval ? SOCK->expire_interval : SOCK->refresh_interval) + 2;
 
-	vb_printf(b, "M{have=%d,%u,%u,rc=%d,so=%d,ts=%ld,er=%d,fq=%d,v=%d,chp=%d,efr=%d,rp=%d,np=%d}", MON.have,
+	vb_printf(b, "M{have=%d,%u,%u,rc=%d,so=%d,ts=%ld,er=%d,fq=%d,v=%d,chp=%d,efr=%d,rp=%d,np=%d,nw=%d}", MON.have,
 		  MON.have ? MON.sess : 0, MON.have ? MON.sn : 0, MON.reset_cause, MON.synced_once,
 		  MON.synced_once ? norm_age(MON.t_success, cap) : -1, MON.expect_reset_on_this_conn, MON.first_query_of_conn,
-		  MON.v, MON.conn_has_pdu, MON.expect_fast_reconnect, MON.refused_pending, MON.notify_pending);
+		  MON.v, MON.conn_has_pdu, MON.expect_fast_reconnect, MON.refused_pending, MON.notify_pending,
+		  /* a wait that is owed and has not happened (never true on a correct client; keeps such a state apart) */
+		  (MON.nodata_pending && MON.t_nodata == ENV.now) || (MON.send_just_failed && MON.t_send_failed == ENV.now));
 }
 
 static void cache_key(struct vbuf *b)
@@ -866,6 +870,10 @@ static void check_query(const struct rpdu *p)
 			MON.have = false;
 		}
 	}
+	if (is_prop("C08") && MON.nodata_pending && MON.t_nodata == ENV.now)
+		violation("requery-without-wait|after-no-data",
+			  "the cache answered 'No Data Available' and the client sent its next query without having slept: with a cache that has no data yet it loops without letting time advance");
+	MON.nodata_pending = false;
 	if (is_prop("C07") && MON.first_query_of_conn && MON.expect_reset_on_this_conn && p->type != PT_RESET_QUERY) {
 		snprintf(what, sizeof(what), "first query after reconnecting beyond the expire interval is a %s, not a Reset Query",
 			 pdu_type_name(p->type));
@@ -918,6 +926,9 @@ static void hook_client_pdu(const struct rpdu *p)
 			MON.have = false;
 			MON.reset_cause = true;
 		}
+		/* C08: a cache that has no data yet is asked again after the retry interval, not at once */
+		MON.nodata_pending = kind == RS_ERR_NODATA && !LAST.refused;
+		MON.t_nodata = ENV.now;
 	} else if (p->type == PT_ERROR) {
 		ev("client:ErrorReport(code=%u,enc=%u,text=%u)", p->f16, p->enc_len, p->text_len);
 		if (is_prop("C13")) {
@@ -940,7 +951,6 @@ static int hook_send(const void *buf, size_t len, time_t timeout)
 
 		WHERE = "query";
 		MON.t_last_choice = ENV.now;
-	MON.t_last_choice = ENV.now;
 		c = ex_choose(NMENU, 1);
 		if (c < 0)
 			env_end_run(PARK_HORIZON);
@@ -985,7 +995,6 @@ static int hook_recv_empty(size_t want, time_t timeout)
 		}
 		WHERE = "idle";
 		MON.t_last_choice = ENV.now;
-	MON.t_last_choice = ENV.now;
 		if (NIDLE > 1) {
 			c = ex_choose(NIDLE, 1);
 			if (c < 0)
